@@ -265,6 +265,17 @@ def standard_units(tier, with_circuit_format=True, sign_mode="full", thin=1):
         units.append(("n=%d: ALL %d graphs in graph form (Graph object; strings with a sign pattern)" % (n, ng),
                       [("gens", n, M.gens_str(B.graph_states_gens(n, gid), n), [0, (gid * 5 + 1) % (1 << n)] if not light else [(gid * 5 + 1) % (1 << n)])
                        for gid in range(ng)], M.configs_for(n), ["graph", "strings"]))
+    # the same single-qubit Clifford on every qubit of every table graph state (incl. HSH on all qubits: the layer
+    # of maximal gate count)
+    for n in (3, 4, 5, 6):
+        for conn in M.configs_for(n):
+            specs = []
+            for gid in table_graphs(n, conn):
+                base = B.graph_states_gens(n, gid)
+                for c in range(1, 6):
+                    gens = M.run(M.local_layer_gates([c] * n), n, base)
+                    specs.append(("gens", n, [M.pauli_str(p, n, with_sign=False) for p in gens], [(gid + c) % (1 << n)]))
+            units.append(("n=%d %s: table graph states with the same local Clifford on every qubit" % (n, conn), specs, [conn], ["matrices"]))
     confs6 = M.configs_for(6)
     step6 = 16 if quick else 1
     for k, conn in enumerate(confs6):
